@@ -31,7 +31,7 @@ EVIDENCE = os.path.join(_OUT, "evidence")
 REPLAY = os.path.join(_OUT, "replay")
 FINDINGS_FILE = os.path.join(VERIF, "known_findings.json")
 FINDINGS_DIR = os.path.join(VERIF, "known_findings.d")
-NPROC = min(16, os.cpu_count() or 4)
+NPROC = int(os.environ.get("VERIF_NPROC", "0")) or min(16, os.cpu_count() or 4)
 
 TRIPLE = "x86_64-unknown-linux-gnu"
 
